@@ -77,6 +77,48 @@ Theorem C18_popped_bar_hands_over_its_old_place : forall pm am dm evs s b nrows 
 Proof. exact flush_pop_handover. Qed.
 Print Assumptions C18_popped_bar_hands_over_its_old_place.
 
+(* ---- KNOWN FINDING D10 (open, known_findings.json): the property fails when the rows do not fit the height ----
+   flush keeps the bottom-most [height] rows of a frame.  A finished bar that is given the pop priority moves to the top,
+   where rows are cut; in the cycle of its third terminal frame its rows are discarded, nothing is counted as popped and the
+   bar is not pushed back: it was never drawn at the top and is nowhere on the screen afterwards.  The witness is the
+   smallest such run: two bars on a frame one line high.  The same history against the code: corpus/C18/frames_d10_popped_bar_clipped.txt
+   (8 bars of 3 rows, height 20), reported by the check as KNOWN-FINDING. *)
+Theorem C18_popped_bar_lost_when_clipped_refuted :
+  exists evs s, run (init_cst true true false) evs = Some s /\
+    retired s = [1] /\ screen s = [IRow 0 0 2 false false] /\
+    (exists f, In f (outframes s) /\ In (IRow 1 9 9 true false) f).
+Proof.
+  exists
+    [CT_OP; CT_ADD 0 0 0 2 None None false false true 0 false; HM_PUSH 0 true 0 false 0;
+     CT_OP; CT_ADD 1 1 1 9 None None false false true 0 false; HM_PUSH 1 true 1 true 0;
+     CL_OP 1 (IncrInt64 9); BAR_OP 1 9 9 0 true false false 0;
+     (* frame 1, one line high: only the bottom bar (1, completed) is visible *)
+     CT_RENDERBEGIN; HM_SYNC 2 true 0; HM_ITERREQ true 2; CT_RENDERSIZE 80 1;
+     BAR_RENDER 0 0 2 0 false false 0; BAR_OP 0 0 2 0 true false false 0;
+     BAR_RENDER 1 9 9 0 false true 0; BAR_OP 1 9 9 0 true false false 1;
+     HM_POP 1 1; HM_POP 0 0;
+     CT_FLUSHBAR 1 0 1 false false false; CT_FLUSHBAR 0 0 1 false false false; CT_FRAME 1 0;
+     OUT [IRow 1 9 9 true false];
+     HM_PUSH 1 false 0 false 2; HM_PUSH 0 false 1 false 2;
+     (* frame 2: shutdown = 1, bar 1 gets the pop priority *)
+     CT_RENDERBEGIN; HM_SYNC 2 false 2; HM_ITERREQ true 2; CT_RENDERSIZE 80 1;
+     BAR_RENDER 0 0 2 0 false false 0; BAR_OP 0 0 2 0 true false false 0;
+     BAR_RENDER 1 9 9 0 false true 1; BAR_OP 1 9 9 0 true false false 2;
+     HM_POP 1 1; HM_POP 0 0;
+     CT_FLUSHBAR 1 1 1 false false false; CT_FLUSHBAR 0 0 1 false false false; CT_FRAME 1 0;
+     OUT [ICuu 1; IRow 1 9 9 true false];
+     HM_PUSH 1 false 0 false 2; HM_PUSH 0 false 1 false 2;
+     (* frame 3: bar 1 is on top, its row does not fit, it leaves all the same *)
+     CT_RENDERBEGIN; HM_SYNC 2 false 2; HM_ITERREQ true 2; CT_RENDERSIZE 80 1;
+     BAR_RENDER 0 0 2 0 false false 0; BAR_OP 0 0 2 0 true false false 0;
+     BAR_RENDER 1 9 9 0 false true 2;
+     HM_POP 0 0; HM_POP 1 (-2147483648);
+     CT_FLUSHBAR 0 0 1 false false false; CT_FLUSHBAR 1 2 1 false false false; CT_FRAME 1 0;
+     OUT [ICuu 1; IRow 0 0 2 false false]].
+  eexists. vm_compute. repeat split. eexists. split; [right; right; left; reflexivity|left; reflexivity].
+Qed.
+Print Assumptions C18_popped_bar_lost_when_clipped_refuted.
+
 Example C18_nonvacuous :
   exists s, run (init_cst true true false)
     [CT_OP; CT_ADD 0 0 0 2 None None false false true 0 false; HM_PUSH 0 true 0 false 0;
